@@ -25,6 +25,44 @@ def validated_param(e, method):
     return None
 
 
+def v_ladder(ctx, tname, adtp, maxn):
+    """try_from_floats: k-th next() validated before use, missing k-th item returns the k-component constructor with the items in order"""
+    f = ctx.facts
+    # ladder
+    it = f.hir_fn("try_from_floats", self_ty=adtp)
+    ctx.fn(it)
+    body = strip(it["body"])
+    lets = [s for s in body["stmts"] if s["k"] == "Let"]
+    nexts = hir.find_calls(it["body"], "next")
+    ctx.ob("V-CTOR", "%s::try_from_floats reads at most %d items" % (tname, maxn), len(nexts) == maxn and len(lets) == maxn, "%d next() calls" % len(nexts))
+    bound = []
+    for k, s in enumerate(lets):
+        m = strip(s["init"])
+        ok = m["k"] == "Match" and strip(m["scrut"])["k"] == "MethodCall" and strip(m["scrut"])["method"] == "next"
+        some_ok = none_ok = False
+        if ok:
+            for v, arm, pat in hir.arms_by_variant(m):
+                if v == "Some":
+                    b = hir.pat_bindings(pat)
+                    some_ok = validated_param(arm["body"], "try_validate_01") == b[0]
+                if v == "None":
+                    r = strip(arm["body"])
+                    if r["k"] == "Ret":
+                        c = strip(r["e"])
+                        if c["k"] == "Call" and hir.callee_name(c) == "Ok":
+                            inner = strip(c["args"][0])
+                            none_ok = inner["k"] == "Call" and hir.callee_name(inner) == NAMES[k] and [field_path(a) for a in inner["args"]] == [(x,) for x in bound]
+        ctx.ob("V-CTOR", "%s::try_from_floats step %d" % (tname, k), ok and some_ok and none_ok,
+               "item %d must be validated before use and its absence must return %s(%s)" % (k, NAMES[k], bound))
+        bound.append(s["pat"].get("name"))
+    tail = hir.last_expr(it["body"])
+    ok = tail["k"] == "Call" and hir.callee_name(tail) == "Ok"
+    if ok:
+        inner = strip(tail["args"][0])
+        ok = inner["k"] == "Call" and hir.callee_name(inner) == NAMES[maxn] and [field_path(a) for a in inner["args"]] == [(x,) for x in bound]
+    ctx.ob("V-CTOR", "%s::try_from_floats full arity" % tname, ok, "")
+
+
 def run(ctx):
     f = ctx.facts
     src = deps.require_nar_dev_utils(ctx, ["src/floats.rs"])
@@ -70,39 +108,7 @@ def run(ctx):
             ok = b["k"] == "Call" and strip(b["f"])["k"] == "Path" and hir.variant_of(strip(b["f"])["path"]) == byar[k] and len(params) == k
             got = [validated_param(a, "validate_01") for a in b.get("args", [])] if ok else None
             ctx.ob("V-CTOR", "%s::%s" % (tname, NAMES[k]), ok and got == params, "builds %s from %s; parameters %s" % (byar.get(k), got, params))
-        # ladder
-        it = f.hir_fn("try_from_floats", self_ty=adtp)
-        ctx.fn(it)
-        body = strip(it["body"])
-        lets = [s for s in body["stmts"] if s["k"] == "Let"]
-        nexts = hir.find_calls(it["body"], "next")
-        ctx.ob("V-CTOR", "%s::try_from_floats reads at most %d items" % (tname, maxn), len(nexts) == maxn and len(lets) == maxn, "%d next() calls" % len(nexts))
-        bound = []
-        for k, s in enumerate(lets):
-            m = strip(s["init"])
-            ok = m["k"] == "Match" and strip(m["scrut"])["k"] == "MethodCall" and strip(m["scrut"])["method"] == "next"
-            some_ok = none_ok = False
-            if ok:
-                for v, arm, pat in hir.arms_by_variant(m):
-                    if v == "Some":
-                        b = hir.pat_bindings(pat)
-                        some_ok = validated_param(arm["body"], "try_validate_01") == b[0]
-                    if v == "None":
-                        r = strip(arm["body"])
-                        if r["k"] == "Ret":
-                            c = strip(r["e"])
-                            if c["k"] == "Call" and hir.callee_name(c) == "Ok":
-                                inner = strip(c["args"][0])
-                                none_ok = inner["k"] == "Call" and hir.callee_name(inner) == NAMES[k] and [field_path(a) for a in inner["args"]] == [(x,) for x in bound]
-            ctx.ob("V-CTOR", "%s::try_from_floats step %d" % (tname, k), ok and some_ok and none_ok,
-                   "item %d must be validated before use and its absence must return %s(%s)" % (k, NAMES[k], bound))
-            bound.append(s["pat"].get("name"))
-        tail = hir.last_expr(it["body"])
-        ok = tail["k"] == "Call" and hir.callee_name(tail) == "Ok"
-        if ok:
-            inner = strip(tail["args"][0])
-            ok = inner["k"] == "Call" and hir.callee_name(inner) == NAMES[maxn] and [field_path(a) for a in inner["args"]] == [(x,) for x in bound]
-        ctx.ob("V-CTOR", "%s::try_from_floats full arity" % tname, ok, "")
+        v_ladder(ctx, tname, adtp, maxn)
 
     ctx.rule("K-ACCESSOR", "accessor k returns field k unchanged for exactly the variants with more than k components and panics otherwise; "
              "the short aliases delegate to them")
